@@ -3,6 +3,10 @@ package main
 // Property registry: which units and programs decide which property.
 
 import (
+	"os"
+	"os/exec"
+	"encoding/json"
+	"time"
 	"fmt"
 	"go/ast"
 	"go/token"
@@ -79,6 +83,7 @@ func init() {
 			}
 		}
 		r.verifyFuncs(u, own)
+		boundedDiagnostics(r)
 		return nil
 	}})
 	// C10: the tree builder as a stack machine, the escape table and the stack discipline of peg.peg (builder.go)
@@ -99,6 +104,7 @@ func init() {
 		if err := runRuntime(r, "C17"); err != nil {
 			return err
 		}
+		bootstrapChain(r)
 		return runClosureProperty(r, "C17", [][]string{{}, {"-inline"}, {"-switch"}, {"-inline", "-switch"}}, true)
 	}})
 }
@@ -152,6 +158,153 @@ func attributed(ob *Obligation, id string) bool {
 	return false
 }
 
+// boundedDiagnostics: Tree.Compile itself (the diagnostics of its rule emission loop - "used but not defined" - and the
+// -strict handling) is outside the verifier's reach: a 600-line function with goroutines, text/template and nested
+// closures. As DESIGN.md 13.10 explains, a bounded differential check stands in for that part of C15 and is labelled as
+// such: peg, built from the working tree, is run on a family of small grammars and its diagnostics and exit status (with and
+// without -strict) are compared with a reference computed on the generator's own syntax tree (witness_diag.go). It is one
+// obligation of kind "bounded", never counted as proved; a disagreement is a violation that carries the grammar.
+func boundedDiagnostics(r *Run) {
+	budget := 25 * time.Second
+	if r.Tier == "thorough" {
+		budget = 5 * time.Minute
+	}
+	ob := &Obligation{Name: "tree/Tree.Compile#bounded.diagnostics", Kind: "bounded", Unit: "tree", Fn: "Tree.Compile", Goal: "bounded", PC: "true", Pos: "tree/peg.go (Compile)"}
+	t0 := time.Now()
+	note := r.witnessDiagnostics([]*Obligation{ob}, t0.Add(budget))
+	secs := time.Since(t0).Seconds()
+	ob.Detail = fmt.Sprintf("BOUNDED (not a proof): diagnostics and exit status of peg (with and without -strict) agree with the reference on %d grammars (curated shapes per operator, the exhaustive two-rule family in random order, random grammars of 2-4 rules) tried within %.0f s", note.Tried, budget.Seconds())
+	if note.Found || ob.Ground != "" {
+		ob.Result = SolverResult{Verdict: VSat, Backend: "bounded-differential", Seconds: secs, Output: note.Detail}
+		ob.Detail += " -- DISAGREEMENT: " + note.Detail
+	} else if note.Tried == 0 {
+		ob.Result = SolverResult{Verdict: VUnknown, Backend: "bounded-differential", Seconds: secs, Output: "no grammar could be tried: " + note.Detail}
+	} else {
+		ob.Result = SolverResult{Verdict: VUnsat, Backend: "bounded-differential", Seconds: secs}
+	}
+	ob.solved = true
+	r.Obls = append(r.Obls, ob)
+	r.Assume["BOUNDED stand-in (not proved): Tree.Compile's emission-loop diagnostics and -strict handling are checked by a bounded differential run over small grammars, not by contracts (DESIGN.md 13.10)"] = true
+	r.Extra["bounded_diagnostics"] = map[string]any{"grammars_tried": note.Tried, "seconds": secs, "budget_seconds": budget.Seconds(), "disagreement": note.Found}
+}
+
+// bootstrapChain: the first clause of C17 (the chain from the hand-built tree through bootstrap.peg and peg.bootstrap.peg
+// to peg.peg reproduces the checked-in peg.peg.go byte for byte) is a closed statement about the current tree: it has
+// no quantifier, so executing the chain decides it. This is a concrete run, labelled as such, not a deductive result: a
+// private copy of the working tree, the six generations of bootstrap.bash built one from the other, the final
+// `peg -inline -switch peg.peg`, and a byte comparison.
+func bootstrapChain(r *Run) {
+	ob := &Obligation{Name: "bootstrap#chain.reproduces", Kind: "concrete", Unit: "bootstrap", Fn: "bootstrap.bash", Goal: "concrete", PC: "true", Pos: "bootstrap.bash",
+		Detail: "CONCRETE RUN (not a proof): the bootstrap chain (hand-built tree -> bootstrap.peg -> peg.bootstrap.peg -> peg.peg x3 -> peg -inline -switch peg.peg), replayed on a copy of the working tree, reproduces the checked-in peg.peg.go byte for byte"}
+	t0 := time.Now()
+	why := runBootstrapChain()
+	ob.Result = SolverResult{Verdict: VUnsat, Backend: "concrete-run", Seconds: time.Since(t0).Seconds()}
+	if why != "" {
+		ob.Result.Verdict = VSat
+		ob.Result.Output = why
+		ob.Detail += " -- FAILED: " + why
+		g, _ := json.Marshal(map[string]any{"kind": "bootstrap-chain", "what": why, "how_to_rerun": "cd /repo && bash bootstrap.bash (on a copy) and compare peg.peg.go with the checked-in file"})
+		ob.Ground = string(g)
+	}
+	ob.solved = true
+	r.Obls = append(r.Obls, ob)
+	r.Assume["CONCRETE RUN (not proved): C17's first clause (the bootstrap chain reproduces peg.peg.go) is decided by executing the chain on the current tree"] = true
+}
+
+// runBootstrapChain returns "" when the chain reproduces the checked-in file, otherwise what went wrong.
+func runBootstrapChain() string {
+	work := filepath.Join(scratchDir, "bootstrap-chain")
+	_ = os.RemoveAll(work)
+	src := filepath.Join(work, "src")
+	if err := os.MkdirAll(src, 0o755); err != nil {
+		return err.Error()
+	}
+	if out, err := runCmd(repoDir, "rsync", "-a", "--exclude", ".git", repoDir+"/", src+"/"); err != nil {
+		return "copy of the working tree failed: " + trunc(out, 300)
+	}
+	checked, err := os.ReadFile(filepath.Join(src, "peg.peg.go"))
+	if err != nil {
+		return err.Error()
+	}
+	bdir := filepath.Join(src, "cmd", "peg-bootstrap")
+	run := func(dir string, stdin, stdout string, name string, args ...string) error {
+		cmd := exec.Command("timeout", append([]string{"120", name}, args...)...)
+		cmd.Dir = dir
+		cmd.Env = goEnv()
+		if stdin != "" {
+			f, err := os.Open(stdin)
+			if err != nil {
+				return err
+			}
+			defer f.Close()
+			cmd.Stdin = f
+		}
+		var errb strings.Builder
+		cmd.Stderr = &errb
+		if stdout != "" {
+			f, err := os.Create(stdout)
+			if err != nil {
+				return err
+			}
+			defer f.Close()
+			cmd.Stdout = f
+		}
+		if err := cmd.Run(); err != nil {
+			return fmt.Errorf("%v: %s", err, trunc(errb.String(), 400))
+		}
+		return nil
+	}
+	gen0 := filepath.Join(work, "gen0")
+	if err := run(bdir, "", "", "go", "build", "-o", gen0, "../../bootstrap"); err != nil {
+		return "generation 0: bootstrap/ does not build: " + err.Error()
+	}
+	if err := run(bdir, "", filepath.Join(bdir, "peg0.peg.go"), gen0); err != nil {
+		return "generation 0 (hand-built tree) failed: " + err.Error()
+	}
+	steps := []struct{ prev, grammar, out, label string }{
+		{"peg0.peg.go", "bootstrap.peg", "peg1.peg.go", "generation 1 (bootstrap.peg)"},
+		{"peg1.peg.go", "peg.bootstrap.peg", "peg2.peg.go", "generation 2 (peg.bootstrap.peg)"},
+		{"peg2.peg.go", "../../peg.peg", "peg3.peg.go", "generation 3 (peg.peg read by the parser of peg.bootstrap.peg)"},
+		{"peg3.peg.go", "../../peg.peg", "peg-bootstrap.peg.go", "generation 4 (peg.peg)"},
+		{"peg-bootstrap.peg.go", "../../peg.peg", "plain.peg.go", "generation 5 (peg.peg)"},
+	}
+	stage := filepath.Join(work, "stage")
+	for _, s := range steps {
+		if err := run(bdir, "", "", "go", "build", "-tags", "bootstrap", "-o", stage, "main.go", s.prev); err != nil {
+			return s.label + ": the previous generation does not compile: " + err.Error()
+		}
+		if err := run(bdir, filepath.Join(bdir, s.grammar), filepath.Join(bdir, s.out), stage); err != nil {
+			return s.label + ": the previous generation cannot read " + s.grammar + ": " + err.Error()
+		}
+	}
+	plain, err := os.ReadFile(filepath.Join(bdir, "plain.peg.go"))
+	if err != nil {
+		return err.Error()
+	}
+	for _, f := range []string{"peg0.peg.go", "peg1.peg.go", "peg2.peg.go", "peg3.peg.go", "peg-bootstrap.peg.go", "plain.peg.go"} {
+		_ = os.Remove(filepath.Join(bdir, f))
+	}
+	if err := os.WriteFile(filepath.Join(src, "peg.peg.go"), plain, 0o644); err != nil {
+		return err.Error()
+	}
+	final := filepath.Join(work, "pegfinal")
+	if err := run(src, "", "", "go", "build", "-o", final, "."); err != nil {
+		return "the chain-built front end does not compile: " + err.Error()
+	}
+	if err := run(src, "", "", final, "-inline", "-switch", "peg.peg"); err != nil {
+		return "the chain-built front end cannot read peg.peg: " + err.Error()
+	}
+	got, err := os.ReadFile(filepath.Join(src, "peg.peg.go"))
+	if err != nil {
+		return err.Error()
+	}
+	if string(got) != string(checked) {
+		return fmt.Sprintf("the chain ends in a peg.peg.go (%d bytes) that differs from the checked-in one (%d bytes)", len(got), len(checked))
+	}
+	_ = os.RemoveAll(work)
+	return ""
+}
+
 // closureOptionSets: under which peg options the closures of the program family are validated for a property that is not
 // itself about options. The quick tier takes the default and the fully optimised parser (the two ends), the thorough tier
 // every combination; C13 (memory safety) also covers parsers without AST. The register (C11) is only specified for the
@@ -200,10 +353,13 @@ func closurePrograms(r *Run) ([]programSpec, error) {
 		ps = append(ps, programSpec{f.Name, f.Path})
 	}
 	ps = append(ps, programSpec{"peg.peg", filepath.Join(repoDir, "peg.peg")})
+	// shipped grammars: the four small ones in every tier (a few seconds each), c and java (minutes) in the thorough tier
+	shipped := []string{"calculator/calculator.peg", "calculatorast/calculator.peg", "fexl/fexl.peg", "longtest/long.peg"}
 	if r.Tier == "thorough" {
-		for _, g := range []string{"calculator/calculator.peg", "calculatorast/calculator.peg", "fexl/fexl.peg", "longtest/long.peg", "c/c.peg", "java/java_1_7.peg"} {
-			ps = append(ps, programSpec{strings.ReplaceAll(g, "/", "_"), filepath.Join(repoDir, "grammars", g)})
-		}
+		shipped = append(shipped, "c/c.peg", "java/java_1_7.peg")
+	}
+	for _, g := range shipped {
+		ps = append(ps, programSpec{strings.ReplaceAll(g, "/", "_"), filepath.Join(repoDir, "grammars", g)})
 	}
 	return ps, nil
 }
@@ -238,6 +394,11 @@ func runClosureProperty(r *Run, id string, optSets [][]string, corpusOnly bool) 
 	var jobs []*job
 	for _, p := range progs {
 		for _, opts := range optSets {
+			// the two calculator examples are written for parsers with an AST (their actions use begin/end resp. walk the
+			// syntax tree): a -noast parser for them does not compile, which is outside every claimed property (C08)
+			if strings.HasPrefix(p.Name, "calculator") && len(opts) > 0 && opts[0] == "-noast" {
+				continue
+			}
 			name := p.Name
 			if len(opts) > 0 {
 				name += strings.Join(opts, "")
